@@ -506,7 +506,10 @@ Definition run_vop (fixed : bool) (d : Z) (n : nat) (o : vop) (ops : list snapsh
       match n with
       | O => fiber_res (f_unflatten fixed t nx)
       | _ => (* _modifyRoot deep-copies the root before Fiber.unflattenRanks *)
-        let '(c, n1) := deepcopy t nx in tensor_res (S n) (f_unflatten fixed c n1)
+        if l_empty d t
+        then (* tensor.py unflattenRanks: every fiber of the rank is empty: root = Fiber() *)
+          tensor_res (S n) (Some (mk_fiber nx true []))
+        else let '(c, n1) := deepcopy t nx in tensor_res (S n) (f_unflatten fixed c n1)
       end
     | VSwap =>
       match n with
